@@ -71,15 +71,16 @@ def validate_batch(ctx, module, cfg, traces, extra=None, invariants_note="", dfs
         blob.update(extra or {})
         with open(path, "w") as fh:
             json.dump(blob, fh)
+        verdicts = {}
+
+        def on_line(line):
+            m = _RE_VERDICT.match(line)
+            if m:
+                verdicts[m.group(2)] = (m.group(1), int(m.group(3) or 0))
         r = ctx.tlc(module, cfg, env={"TRACE_FILE": path}, workers=1, coverage=False, expect_error=True,
-                    dfs=dfs, timeout=timeout)
+                    dfs=dfs, timeout=timeout, on_line=on_line)
     finally:
         os.unlink(path)
-    verdicts = {}
-    for line in r.log:
-        m = _RE_VERDICT.match(line)
-        if m:
-            verdicts[m.group(2)] = (m.group(1), int(m.group(3) or 0))
     if r.violated:
         tidx = None
         for _, lines in r.trace[-1:]:
